@@ -17,14 +17,9 @@ ACTIONS = {'self.supvisors.stopper.stop_process', 'self.supvisors.stopper.defaul
            'self.supvisors.starter.start_process', 'self.supvisors.starter.default_start_process'}
 
 
-def run(P, R):
-    fsm = Fsm(P)
-    G = CallGraph(P)
-
-    # ---------------------------------------------------------------- R1
-    r1 = R.rule('R1', 'filter facts', 'the conflict scan is restricted to managed applications in both '
-                'Context.conflicting() and Context.conflicts(), over every process of every application; a conflict is '
-                '"running on two or more instances"', 4)
+def rule_conflict_scan(P, R, r1):
+    """conflicting() and conflicts() scan the same set: every process of every MANAGED application (shared with C08:
+    a difference between the two parks the Master in CONCILIATION with nothing to conciliate)."""
     for q in ('Context.conflicting', 'Context.conflicts'):
         u = P.unit(q)
         comps = [c for c in own_nodes(u.node) if isinstance(c, (ast.GeneratorExp, ast.ListComp))]
@@ -42,6 +37,17 @@ def run(P, R):
         R.check(r1, ok, '%s scans the processes of managed applications only' % q, 'managed|%s' % q, u.loc(),
                 '%s does not restrict the conflict scan to `application.rules.managed` over all applications and '
                 'processes' % q)
+
+
+def run(P, R):
+    fsm = Fsm(P)
+    G = CallGraph(P)
+
+    # ---------------------------------------------------------------- R1
+    r1 = R.rule('R1', 'filter facts', 'the conflict scan is restricted to managed applications in both '
+                'Context.conflicting() and Context.conflicts(), over every process of every application; a conflict is '
+                '"running on two or more instances"', 4)
+    rule_conflict_scan(P, R, r1)
     u = P.unit('ProcessStatus.conflicting')
     rs = [ast.unparse(v) for v, f, n in returns(u) if v is not None]
     R.check(r1, rs in (['len(self.running_identifiers) > 1'], ['len(self.running_identifiers) >= 2']),
